@@ -3,11 +3,12 @@
 `compile_bb` is interpreted as a whole (the HUGR builder, the data-flow container and the statement / expression compilers
 are recorder tokens) on symbolic signatures: 1 or 2 successors, rows over four
 variables covering every copy/drop class with names chosen against the class order
-(z: copyable+droppable, a: droppable only, m: linear, b: copyable only), the droppable part of
-each row chosen independently per successor, the non-droppable part shared (the linearity checker
-guarantees that), every row given in two source orders.  `sort_vars` / `compare_var` are interpreted
-too (`sorted(..., key=cmp_to_key(compare_var))`); the oracle is the specification "droppable first, then by
-name"; `choose_vars_for_tuple_sum` and `set_block_outputs` are recorders.  (If `sort_vars` cannot be interpreted it is
+(z: copyable+droppable, a: droppable only, m: linear, b: copyable only), the non-linear part of
+each row chosen independently per successor -- a value that can be copied or dropped may be live in only some successors; for a
+copyable, non-droppable one: used before the branch and again in one arm -- the linear part shared (the linearity checker
+guarantees that for places that are neither copyable nor droppable), every row given in two source orders.  `sort_vars` / `compare_var` are interpreted
+too (`sorted(..., key=cmp_to_key(compare_var))`); the order a successor declares is the one the code's own `sort_vars` gives
+for its row (the specification "linear last, then by name" only when `sort_vars` cannot be interpreted); `choose_vars_for_tuple_sum` and `set_block_outputs` are recorders.  (If `sort_vars` cannot be interpreted it is
 modelled by the specification and the flag returned by `run` is False: R-C01.3's shape rules then tie it to `compare_var`.)
 
 Decided:
@@ -37,7 +38,7 @@ def _place(name: str) -> Tok:
 
 
 def _spec_sort(row):
-    return sorted(row, key=lambda p: (not p.attrs["ty"].attrs["droppable"], p.name))
+    return sorted(row, key=lambda p: (p.attrs["ty"].attrs["linear"], p.name))
 
 
 def run(ctx: Ctx) -> bool:
@@ -48,8 +49,8 @@ def run(ctx: Ctx) -> bool:
     # everything before the output part is modelled by recorders on the builder / container tokens
     stmts = cb.node.body
     params = [a.arg for a in cb.node.args.args]
-    drop = [n for n, (_, d) in VARS.items() if d]
-    nondrop = [n for n, (_, d) in VARS.items() if not d]
+    drop = [n for n, (c, d) in VARS.items() if c or d]  # may differ between successors
+    nondrop = [n for n, (c, d) in VARS.items() if not c and not d]  # linear: live in all successors or in none
     subsets = lambda xs: [list(c) for r in range(len(xs) + 1) for c in itertools.combinations(xs, r)]  # noqa: E731
     cases = []
     for nd in subsets(nondrop):
@@ -69,6 +70,9 @@ def run(ctx: Ctx) -> bool:
     except (Unsupported, Raised):
         sort_hook = {"sort_vars": lambda node, ev, env: _spec_sort(ev.ev(node.args[0], env))}
     decided = not sort_hook
+
+    def _code_sort(row):
+        return PyEval(idx, cb.module.name).ev(ast.parse("sort_vars(__row__)", mode="eval").body, {"__row__": list(row)})
     for rows_names in cases:
         for flip in itertools.product((False, True), repeat=len(rows_names)):
             rows = [[_place(x) for x in (reversed(r) if f else r)] for r, f in zip(rows_names, flip)]
@@ -120,7 +124,7 @@ def run(ctx: Ctx) -> bool:
             for i, row in enumerate(rows):
                 in_sum = [p.name for p in rec["sum_rows"][i]] if rec.get("sum_rows") is not None else []
                 got = in_sum + regular
-                want = [p.name for p in _spec_sort(row)]
+                want = [p.name for p in (_code_sort(row) if decided else _spec_sort(row))]
                 if got != want:
                     bad.append({"output_rows": [[p.name for p in r_] for r_ in rows], "successor": i, "block_passes": got, "successor_expects": want,
                                 "branch_sum_used": rec.get("sum_rows") is not None})
@@ -172,7 +176,7 @@ def run(ctx: Ctx) -> bool:
                 except Raised as e:
                     bad.append({"input_row": list(row_names), "entry_block": is_entry, "problem": f"raises {e}"})
                     continue
-                order = list(row_names) if is_entry else [p.name for p in _spec_sort(row)]
+                order = list(row_names) if is_entry else [p.name for p in (_code_sort(row) if decided else _spec_sort(row))]
                 want_bound = [(x, f"in_wire{i}") for i, x in enumerate(order)]
                 want_decl = ["entry"] if is_entry else [("hugr", f"ty_{x}") for x in order]
                 if bound != want_bound or declared != want_decl:
